@@ -303,6 +303,14 @@ func runC11(cfg *vh.Config) error {
 		inputs = append(inputs, input{s, "utf8", cfg.Tier == "thorough" || i%3 == int(cfg.Seed%3)})
 	}
 
+	// ---- stream 4m (pinned): a token-level syntax error together with a block-structure problem among the other
+	// statements (stray closer, unclosed block, an error on a header line whose closer then is stray), in every order:
+	// collect-all must still report the fail-fast diagnostic first
+	for _, s := range []string{"a = \ngood Foo\n}\n", "}\nk = = 1\n", "k = = 1\n}\n", "a {\nx = = 1\n", "x = = 1\na {\n", "h = {\n}\n",
+		"a b = {\n\tk = 1\n}\n", "}\n}\nx = #\n", "a {\n}\n}\nb = [1 2]\nc {\n", "a {\n\tb {\n\t\tk = = 2\n\t}\n", "| d\n}\na = \"x\n"} {
+		inputs = append(inputs, input{s, "modes", true})
+	}
+
 	// ---- stream 4a: every lexer sub-automaton x every continuation x every ending (closed, newline, end of input),
 	// in several grammatical positions; all through the oracle, a sample through the model
 	{
